@@ -396,9 +396,16 @@ def mapBucket (tg : Target) (k v : GoType) : GoType :=
   let v' := if goSizeof tg v > 128 then .pointer v else v
   .struct (.cons (.array 8 (.basic .uint8)) (.cons (.array 8 k') (.cons (.array 8 v') (.cons (.basic .unsafePointer) .nil))))
 
-/-- `KeySize`, `ValueSize`, `BucketSize` of the map descriptor -/
+/-- a bucket slot holds the key/element itself, or a pointer when it is larger than `MAXKEYSIZE`/`MAXELEMSIZE` = 128 -/
+def slotSize (tg : Target) (z : Nat) : Nat := if z > 128 then tg.ptrSize else z
+
+/-- `KeySize`, `ValueSize`, `BucketSize` of the map descriptor (`abitype.go` `abiExtendedFields`) -/
 def mapSizes (tg : Target) (k v : GoType) : Nat × Nat × Nat :=
-  (abiSize tg (toRaw k), abiSize tg (toRaw v), abiSize tg (mapBucket tg (toRaw k) (toRaw v)))
+  (slotSize tg (abiSize tg (toRaw k)), slotSize tg (abiSize tg (toRaw v)), abiSize tg (mapBucket tg (toRaw k) (toRaw v)))
+
+/-- the two low bits of `Flags` (`MapTypeFlags`): 1 = indirect key, 2 = indirect element -/
+def mapFlags (tg : Target) (k v : GoType) : Nat :=
+  (if goSizeof tg (toRaw k) > 128 then 1 else 0) + (if goSizeof tg (toRaw v) > 128 then 2 else 0)
 
 /-! ## where gc pads and LLVM does not -/
 
